@@ -1,7 +1,7 @@
 """C16 — new mail wakes the daemon: no lost trigger, no busy loop (ordering premises and
 timeout computation; the interleaving itself is not explored)."""
 from qv.core import AnalysisBroken
-from qv.esp import Engine
+from qv.esp import Engine, Outcome, TOP, fs
 from rules import qsend
 from rules.qsend import attach
 from qv.lib import branch_zero_test
@@ -33,14 +33,50 @@ def run(ctx):
     attach(r2, qsend.analyse_todo_skip(db, rep), prefixes=['todo:'])
     # trigger.c: closes before it reopens; same path as triggerpull.c
     tset = db.fn('trigger.c', 'trigger_set')
-    opens = tset.calls(('open_read', 'open_write'))
-    closes = tset.calls('close')
-    r2.check(bool(opens) and bool(closes) and all(not tset.can_reach(tset.pos[o.id][0], tset.pos[c.id][0]) or tset.pos[o.id][0] == tset.pos[c.id][0] for o in opens for c in closes) and
-             all(tset.pos[c.id] < tset.pos[o.id] or tset.pos[c.id][0] != tset.pos[o.id][0] for o in opens for c in closes),
-             'trigger_set-closes-before-reopening', tset.unit + ':trigger_set', 'trigger_set must close the old descriptor before opening the fifo again')
-    lits_set = {c.args[0].string for c in opens}
+    tunit = db.unit('trigger.c')
+    from rules import libtab as _lt
+
+    class TH(_lt.SAConc, _lt.Conc):
+        """trigger_set() called twice: the descriptors the first call opened are closed by the second before it opens the fifo again"""
+        def __init__(self):
+            _lt.Conc.__init__(self, 'trigger_set')
+            self.ev = []
+
+        def materialize(self, E, path):
+            if path.startswith('S:trigger_c:'):
+                g_ = tunit.globals.get(path.split(':', 2)[2])
+                if g_ is not None and isinstance(g_.get('init'), dict) and g_['init'].get('k') == 'int':
+                    return fs(g_['init']['v'])       # the file's own start-up value
+            return TOP
+
+        def _open(self, E, x, args):
+            n_ = (_lt._one(E.get('$nfd')) or 6) + 1
+            self.ev.append(('open', self.cstring(E, _lt._one(args[0])), n_))
+            return [Outcome(ret=fs(n_), sets={'$nfd': fs(n_)})]
+
+        prim_open_read = prim_open_write = prim_open = _open
+
+        def prim_close(self, E, x, args):
+            self.ev.append(('close', _lt._one(args[0])))
+            return [Outcome(ret=fs(0))]
+    th1 = TH()
+    _lt._run_conc(db, rep, db.program('qmail-send'), tset, {}, 'trigger_set', th1)
+    if len(th1.ends) != 1 or not [e_ for e_ in th1.ev if e_[0] == 'open']:
+        raise AnalysisBroken('trigger_set: %d ends, events %s' % (len(th1.ends), th1.ev))
+    th2 = TH()
+    _lt._run_conc(db, rep, db.program('qmail-send'), tset, {k_: v_ for k_, v_ in th1.ends[0][0].items() if '::' not in k_}, 'trigger_set', th2)
+    opened1 = sorted(e_[2] for e_ in th1.ev if e_[0] == 'open')
+    kinds2 = [e_[0] for e_ in th2.ev]
+    closed2 = sorted(e_[1] for e_ in th2.ev if e_[0] == 'close')
+    first_ok = not [e_ for e_ in th1.ev if e_[0] == 'close']
+    r2.check(first_ok and closed2 == opened1 and kinds2 == sorted(kinds2), 'trigger_set-closes-before-reopening', tset.unit + ':trigger_set',
+             'first call: %s; second call: %s; documented: the second call closes exactly the descriptors the first one opened, and only then opens the fifo again (otherwise the daemon leaks a descriptor per scan, or listens on a closed one)' % (th1.ev, th2.ev))
+    lits_set = {e_[1] for e_ in th1.ev if e_[0] == 'open'}
     tpull = db.fn('triggerpull.c', 'triggerpull')
-    lits_pull = {c.args[0].string for c in tpull.calls(('open_write', 'open_read'))}
+    thp = TH()
+    thp.entry = 'triggerpull'
+    _lt._run_conc(db, rep, db.program('qmail-queue'), tpull, {}, 'triggerpull', thp)
+    lits_pull = {e_[1] for e_ in thp.ev if e_[0] == 'open'}
     r2.check(len(lits_set) == 1 and lits_set == lits_pull and None not in lits_set, 'trigger-path-agrees', 'trigger.c/triggerpull.c', 'daemon opens %s, injector opens %s' % (sorted(map(str, lits_set)), sorted(map(str, lits_pull))))
     r2.expect_min(6)
 
